@@ -153,7 +153,8 @@ func genC11(entry, fault string, capacity int) func(*rapid.T) c11Case {
 		gr := randomGraph(t, g.atoms, []string{"e0"}, 3)
 		c := c11Case{Entry: entry, Fault: fault, Cap: capacity}
 		c.Profile = injectProfileFault(t, &p, fault)
-		c.Data = gr.JSONLD(m.LDOpts{})
+		genScale(t, gr, 12)
+		c.Data = gr.JSONLD(genLDOpts(t, len(gr.Nodes)))
 		switch fault {
 		case "data-not-json":
 			c.Data = pick(t, []string{"", "{", c.Data[:len(c.Data)/2], "profile: x", "\xff\xfe"}, "badjson")
@@ -161,6 +162,14 @@ func genC11(entry, fault string, capacity int) func(*rapid.T) c11Case {
 			c.Data = pick(t, []string{`[{"@id":5}]`, `{"@context":{"@vocab":5}}`, `[{"@id":"http://a/b","@type":5}]`, `{"@context":7,"@id":"http://a/b"}`}, "badld")
 		case "data-no-nodes":
 			c.Data = pick(t, []string{"[]", "{}", `{"@graph":[]}`, `{"@id":"http://a/b"}`}, "nonodes")
+		}
+		// scale: inputs beyond the sizes at which a "large input" path could start (white space before the data,
+		// comment lines after the profile); the protocol does not depend on size
+		if rapid.IntRange(0, 7).Draw(t, "bigData") == 0 {
+			c.Data = strings.Repeat(" ", rapid.SampledFrom([]int{70_000, 600_000, 1_200_000}).Draw(t, "dataPad")) + "\n" + c.Data
+		}
+		if rapid.IntRange(0, 11).Draw(t, "bigProfile") == 0 {
+			c.Profile += "\n" + strings.Repeat("# padding padding padding padding padding padding padding padding\n", rapid.SampledFrom([]int{1_100, 9_500, 19_000}).Draw(t, "profilePad"))
 		}
 		return c
 	}
